@@ -148,25 +148,25 @@ SPECS["C20"] = {
 
 # --- map / set ---------------------------------------------------------------
 SPECS["C04"] = {
-    "quick": [M("maptree", 3, MA + ",o_ref,o_handle", quq=1, cs=2), M("maptree", 3, MAW + ",o_ref", quq=2, tail2=2), M("maptree", 3, MAW + ",o_ref", quq=2), M("maptree", 3, MAW + ",o_ref", deep=3), M("maptree", 5, MA + ",o_ref", audit=1), M("maptree", 5, MAW + ",o_ref", pay="track"), F("maptree", MA + ",o_ref", pay="track", sizes="9,17,33"), F("maptree", MA + ",o_ref"), F("maptree", MA + ",o_ref", pay="heap", hint=0, sizes="9,17,33,65"), M("maptree", 6, MA + ",o_ref"), M("maptree", 4, MAW + ",o_ref", pay="heap", hint=0), M("maptree", 4, MAW + ",o_ref", hint=1),
+    "quick": [M("maptree", 3, MA + ",o_ref,o_handle", quq=1, cs=2), M("maptree", 3, MA + ",o_ref", quq=1, tail2=2), M("maptree", 3, MA + ",o_ref", quq=2), M("maptree", 3, MA + ",o_ref", deep=3), M("maptree", 5, MA + ",o_ref", audit=1), M("maptree", 5, MAW + ",o_ref", pay="track"), F("maptree", MA + ",o_ref", pay="track", sizes="9,17,33"), F("maptree", MA + ",o_ref"), F("maptree", MA + ",o_ref", pay="heap", hint=0, sizes="9,17,33,65"), M("maptree", 6, MA + ",o_ref"), M("maptree", 4, MAW + ",o_ref", pay="heap", hint=0), M("maptree", 4, MAW + ",o_ref", hint=1),
               M("maptree", 10, "del,clear,o_ref", mode="shape"), M("maptree", 10, "del,clear,o_ref", mode="shape", hint=9), M("maptree", 3, MA + ",o_ref", mode="full"), M("maptree", 3, MAW + ",o_ref", hint=64)],
     "thorough": [M("maptree", 4, MA + ",o_ref,o_handle", quq=1, cs=2), M("maptree", 3, MA + ",o_ref,o_handle", quq=2, cs=2), M("maptree", 3, MA + ",o_ref,o_handle", quq=1, cs=2), M("maptree", 4, MAW + ",o_ref", quq=1, tail2=2), M("maptree", 14, "del,clear,o_ref", mode="shape", cap_s=1500), M("maptree", 3, MAW + ",o_ref", quq=2), M("maptree", 3, MAW + ",o_ref", deep=3), M("maptree", 5, MA + ",o_ref", audit=1), M("maptree", 5, MAW + ",o_ref", pay="track"), F("maptree", MA + ",o_ref", pay="track", sizes="9,17,33"), F("maptree", MA + ",o_ref"), F("maptree", MA + ",o_ref", pay="heap", hint=0, sizes="9,17,33,65"), M("maptree", 7, MA + ",o_ref"), M("maptree", 6, MA + ",o_ref", pay="heap", hint=0), M("maptree", 5, MAW + ",o_ref", hint=1),
                  M("maptree", 12, "del,clear,o_ref", mode="shape"), M("maptree", 12, "del,clear,o_ref", mode="shape", hint=9), M("maptree", 4, "del,clear,o_ref", mode="full", max_states=30000000, cap_s=1200), M("maptree", 5, MAW + ",o_ref", hint=64)],
 }
 SPECS["C05"] = {
-    "quick": [M("settree", 3, MA + ",o_ref,o_handle", quq=1, cs=2), M("settree", 3, MAW + ",o_ref", quq=2, tail2=2), M("settree", 3, MAW + ",o_ref", quq=2), M("settree", 3, MAW + ",o_ref", deep=3), M("settree", 5, MA + ",o_ref", audit=1), M("settree", 5, MAW + ",o_ref", pay="track"), F("settree", MA + ",o_ref", pay="track", sizes="9,17,33"), F("settree", MA + ",o_ref"), F("settree", MA + ",o_ref", pay="heap", hint=0, sizes="9,17,33,65"), M("settree", 6, MA + ",o_ref"), M("settree", 4, MAW + ",o_ref", pay="heap", hint=0), M("settree", 6, MA + ",o_ref", pay="bare", hint=1),
+    "quick": [M("settree", 3, MA + ",o_ref,o_handle", quq=1, cs=2), M("settree", 3, MA + ",o_ref", quq=1, tail2=2), M("settree", 3, MA + ",o_ref", quq=2), M("settree", 3, MA + ",o_ref", deep=3), M("settree", 5, MA + ",o_ref", audit=1), M("settree", 5, MAW + ",o_ref", pay="track"), F("settree", MA + ",o_ref", pay="track", sizes="9,17,33"), F("settree", MA + ",o_ref"), F("settree", MA + ",o_ref", pay="heap", hint=0, sizes="9,17,33,65"), M("settree", 6, MA + ",o_ref"), M("settree", 4, MAW + ",o_ref", pay="heap", hint=0), M("settree", 6, MA + ",o_ref", pay="bare", hint=1),
               M("settree", 10, "del,clear,o_ref", mode="shape"), M("settree", 3, MA + ",o_ref", mode="full")],
     "thorough": [M("settree", 4, MA + ",o_ref,o_handle", quq=1, cs=2), M("settree", 3, MA + ",o_ref,o_handle", quq=2, cs=2), M("settree", 3, MA + ",o_ref,o_handle", quq=1, cs=2), M("settree", 4, MAW + ",o_ref", quq=1, tail2=2), M("settree", 14, "del,clear,o_ref", mode="shape", cap_s=1500), M("settree", 3, MAW + ",o_ref", quq=2), M("settree", 3, MAW + ",o_ref", deep=3), M("settree", 5, MA + ",o_ref", audit=1), M("settree", 5, MAW + ",o_ref", pay="track"), F("settree", MA + ",o_ref", pay="track", sizes="9,17,33"), F("settree", MA + ",o_ref"), F("settree", MA + ",o_ref", pay="heap", hint=0, sizes="9,17,33,65"), M("settree", 7, MA + ",o_ref"), M("settree", 6, MA + ",o_ref", pay="heap", hint=0), M("settree", 6, MA + ",o_ref", pay="bare", hint=1), M("settree", 5, MAW + ",o_ref", hint=64),
                  M("settree", 12, "del,clear,o_ref", mode="shape", hint=9), M("settree", 4, "del,clear,o_ref", mode="full", max_states=30000000, cap_s=1200)],
 }
 SPECS["C08"] = {
-    "quick": [M("maptree", 3, MA + ",o_ref,o_handle", quq=1, cs=2), M("settree", 3, MA + ",o_ref,o_handle", quq=1, cs=2), M("maptree", 3, MAW + ",o_handle,o_ref", quq=2, tail2=2), M("settree", 3, MA + ",o_handle,o_ref", quq=2, tail2=2), M("maptree", 3, MAW + ",o_handle,o_ref", quq=1, tail2=1), M("settree", 3, MAW + ",o_handle,o_ref", quq=1, tail2=1), M("maptree", 3, MAW + ",o_handle,o_ref", quq=2), M("settree", 3, MAW + ",o_handle,o_ref", quq=2), M("maptree", 3, MAW + ",o_handle,o_ref", deep=3), M("settree", 3, MAW + ",o_handle,o_ref", deep=3), M("maptree", 5, MA + ",o_handle", audit=1), M("settree", 5, MA + ",o_handle", audit=1), M("settree", 4, MAW + ",o_handle,o_ref", pay="track"), F("maptree", MA + ",o_handle"), F("settree", MA + ",o_handle"), M("maptree", 6, MA + ",o_handle"), M("settree", 6, MA + ",o_handle"), M("maptree", 4, MAW + ",o_handle,o_ref", pay="heap"), M("settree", 4, MAW + ",o_handle,o_ref"),
+    "quick": [M("maptree", 3, MA + ",o_ref,o_handle", quq=1, cs=2), M("settree", 3, MA + ",o_ref,o_handle", quq=1, cs=2), M("maptree", 3, MA + ",o_handle,o_ref", quq=1, tail2=2), M("settree", 3, MA + ",o_handle,o_ref", quq=1, tail2=2), M("maptree", 3, MA + ",o_handle,o_ref", quq=1, tail2=1), M("settree", 3, MA + ",o_handle,o_ref", quq=1, tail2=1), M("maptree", 3, MA + ",o_handle,o_ref", quq=2), M("settree", 3, MA + ",o_handle,o_ref", quq=2), M("maptree", 3, MA + ",o_handle,o_ref", deep=3), M("settree", 3, MA + ",o_handle,o_ref", deep=3), M("maptree", 5, MA + ",o_handle", audit=1), M("settree", 5, MA + ",o_handle", audit=1), M("settree", 4, MAW + ",o_handle,o_ref", pay="track"), F("maptree", MA + ",o_handle"), F("settree", MA + ",o_handle"), M("maptree", 6, MA + ",o_handle"), M("settree", 6, MA + ",o_handle"), M("maptree", 4, MAW + ",o_handle,o_ref", pay="heap"), M("settree", 4, MAW + ",o_handle,o_ref"),
               M("maptree", 10, "delh,clear,o_handle", mode="shape"), M("settree", 10, "delh,clear,o_handle", mode="shape", hint=9)],
     "thorough": [M("maptree", 3, MA + ",o_ref,o_handle", quq=1, cs=2), M("settree", 3, MA + ",o_ref,o_handle", quq=1, cs=2), M("maptree", 4, MAW + ",o_handle,o_ref", quq=2, tail2=2), M("maptree", 4, MAW + ",o_handle,o_ref", quq=1, tail2=2), M("settree", 4, MAW + ",o_handle,o_ref", quq=1, tail2=2), M("maptree", 13, "delh,clear,o_handle", mode="shape", cap_s=1500), M("settree", 13, "delh,clear,o_handle", mode="shape", hint=9, cap_s=1500), M("maptree", 3, MAW + ",o_handle,o_ref", quq=1, tail2=1), M("settree", 3, MAW + ",o_handle,o_ref", quq=1, tail2=1), M("maptree", 4, MAW + ",o_handle,o_ref", quq=2), M("settree", 4, MAW + ",o_handle,o_ref", quq=2), M("maptree", 3, MAW + ",o_handle,o_ref", quq=3), M("maptree", 3, MAW + ",o_handle,o_ref", quq=2), M("settree", 3, MAW + ",o_handle,o_ref", quq=2), M("maptree", 4, MAW + ",o_handle,o_ref", deep=3), M("settree", 4, MAW + ",o_handle,o_ref", deep=3), M("maptree", 3, MAW + ",o_handle,o_ref", deep=3), M("settree", 3, MAW + ",o_handle,o_ref", deep=3), M("maptree", 5, MA + ",o_handle", audit=1), M("settree", 5, MA + ",o_handle", audit=1), M("settree", 4, MAW + ",o_handle,o_ref", pay="track"), F("maptree", MA + ",o_handle"), F("settree", MA + ",o_handle"), M("maptree", 7, MA + ",o_handle"), M("settree", 7, MA + ",o_handle"), M("maptree", 5, MAW + ",o_handle,o_ref", pay="heap"), M("settree", 5, MAW + ",o_handle,o_ref"),
                  M("maptree", 12, "delh,clear,o_handle", mode="shape"), M("settree", 12, "delh,clear,o_handle", mode="shape", hint=9)],
 }
 SPECS["C09"] = {
-    "quick": [M("settree", 3, MA + ",o_neigh,o_handle", quq=1, cs=2), M("settree", 3, MA + ",o_neigh,o_handle", quq=2, tail2=2), M("settree", 3, MA + ",o_neigh,o_handle", quq=1, tail2=1), M("settree", 3, MA + ",o_neigh,o_handle", quq=2), M("settree", 3, MA + ",o_neigh,o_handle", deep=3), M("settree", 5, MA + ",o_neigh", audit=1), F("settree", MA + ",o_neigh"), M("settree", 6, MA + ",o_neigh"), M("settree", 6, MA + ",o_neigh", pay="bare"), M("settree", 10, "del,clear,o_neigh", mode="shape"), M("settree", 3, MA + ",o_neigh", mode="full")],
+    "quick": [M("settree", 3, MA + ",o_neigh,o_handle", quq=1, cs=2), M("settree", 3, MA + ",o_neigh,o_handle", quq=1, tail2=2), M("settree", 3, MA + ",o_neigh,o_handle", quq=1, tail2=1), M("settree", 3, MA + ",o_neigh,o_handle", quq=2), M("settree", 3, MA + ",o_neigh,o_handle", deep=3), M("settree", 5, MA + ",o_neigh", audit=1), F("settree", MA + ",o_neigh"), M("settree", 6, MA + ",o_neigh"), M("settree", 6, MA + ",o_neigh", pay="bare"), M("settree", 10, "del,clear,o_neigh", mode="shape"), M("settree", 3, MA + ",o_neigh", mode="full")],
     "thorough": [M("settree", 3, MA + ",o_neigh,o_handle", quq=1, cs=2), M("settree", 4, MA + ",o_neigh,o_handle", quq=1, tail2=2), M("settree", 14, "del,clear,o_neigh", mode="shape", cap_s=1500), M("settree", 3, MA + ",o_neigh,o_handle", quq=1, tail2=1), M("settree", 4, MA + ",o_neigh,o_handle", quq=2), M("settree", 3, MA + ",o_neigh,o_handle", quq=2), M("settree", 3, MA + ",o_neigh,o_handle", deep=3), M("settree", 5, MA + ",o_neigh", audit=1), F("settree", MA + ",o_neigh"), M("settree", 7, MA + ",o_neigh"), M("settree", 6, MA + ",o_neigh", pay="bare"), M("settree", 12, "del,clear,o_neigh", mode="shape", hint=9), M("settree", 6, MA + ",o_neigh", pay="heap", hint=64)],
 }
 SPECS["C17"] = {
@@ -199,7 +199,7 @@ SPECS["C12"] = {
 LISTS_M = MAW + ",o_ref,o_handle,o_pos,o_rb,o_neigh"
 LISTS_K = KA + ",o_pred,o_get,o_export,o_log,o_rb"
 SPECS["C13"] = {
-    "quick": [M("maplist", 3, LISTS_M, quq=1, cs=2), M("setlist", 3, LISTS_M, quq=1, cs=2), K("klist", 2, 2, LISTS_K, quq=1, cs=1), K("klist", 3, 2, LISTS_K, quq=1, tail2=2), M("maplist", 3, LISTS_M, quq=2, tail2=2), M("setlist", 3, LISTS_M, quq=2, tail2=2), K("klist", 2, 2, LISTS_K, quq=1, tail2=1), M("maplist", 3, LISTS_M, quq=1, tail2=1), M("setlist", 3, LISTS_M, quq=1, tail2=1), M("maplist", 3, LISTS_M, quq=2), M("setlist", 3, LISTS_M, quq=2), K("klist", 2, 2, LISTS_K, quq=2), K("klist", 3, 2, LISTS_K, quq=1), M("maplist", 3, LISTS_M, deep=3), M("setlist", 3, LISTS_M, deep=3), K("klist", 2, 2, LISTS_K, deep=3), K("klist", 3, 3, LISTS_K, audit=1), M("maplist", 5, LISTS_M, audit=1), M("setlist", 5, LISTS_M, audit=1), M("maplist", 5, LISTS_M, pay="track"), M("setlist", 5, LISTS_M, pay="track"), K("klist", 3, 3, LISTS_K, tbase=252), K("klist", 4, 3, LISTS_K + ",o_twin", tbase=251), F("maplist", LISTS_M, sizes="9,17,33,65"), F("setlist", LISTS_M, sizes="9,17,33,65"), F("klist", "fl,fle,fleby,get,o_pred,o_get,o_export,o_log,o_rb"), K("klist", 4, 3, LISTS_K, tbase=251), M("maplist", 6, LISTS_M), M("setlist", 6, LISTS_M), M("maplist", 5, LISTS_M, pay="heap", hint=0), K("klist", 4, 4, LISTS_K), K("klist", 3, 3, LISTS_K, hint=0)],
+    "quick": [M("maplist", 3, LISTS_M, quq=1, cs=2), M("setlist", 3, LISTS_M, quq=1, cs=2), K("klist", 2, 2, LISTS_K, quq=1, cs=1), K("klist", 3, 2, LISTS_K, quq=1, tail2=2), M("maplist", 3, LISTS_M, quq=1, tail2=2), M("setlist", 3, LISTS_M, quq=1, tail2=2), K("klist", 2, 2, LISTS_K, quq=1, tail2=1), M("maplist", 3, LISTS_M, quq=1, tail2=1), M("setlist", 3, LISTS_M, quq=1, tail2=1), M("maplist", 3, LISTS_M, quq=2), M("setlist", 3, LISTS_M, quq=2), K("klist", 2, 2, LISTS_K, quq=2), K("klist", 3, 2, LISTS_K, quq=1), M("maplist", 3, LISTS_M, deep=3), M("setlist", 3, LISTS_M, deep=3), K("klist", 2, 2, LISTS_K, deep=3), K("klist", 3, 3, LISTS_K, audit=1), M("maplist", 5, LISTS_M, audit=1), M("setlist", 5, LISTS_M, audit=1), M("maplist", 5, LISTS_M, pay="track"), M("setlist", 5, LISTS_M, pay="track"), K("klist", 3, 3, LISTS_K, tbase=252), K("klist", 4, 3, LISTS_K + ",o_twin", tbase=251), F("maplist", LISTS_M, sizes="9,17,33,65"), F("setlist", LISTS_M, sizes="9,17,33,65"), F("klist", "fl,fle,fleby,get,o_pred,o_get,o_export,o_log,o_rb"), K("klist", 4, 3, LISTS_K, tbase=251), M("maplist", 6, LISTS_M), M("setlist", 6, LISTS_M), M("maplist", 5, LISTS_M, pay="heap", hint=0), K("klist", 4, 4, LISTS_K), K("klist", 3, 3, LISTS_K, hint=0)],
     "thorough": [M("maplist", 3, LISTS_M, quq=1, cs=2), M("setlist", 3, LISTS_M, quq=1, cs=2), K("klist", 2, 2, LISTS_K, quq=1, cs=1), K("klist", 3, 2, LISTS_K, quq=1, tail2=2), M("maplist", 4, LISTS_M, quq=1, tail2=2), M("setlist", 4, LISTS_M, quq=1, tail2=2), K("klist", 2, 2, LISTS_K, quq=1, tail2=1), M("maplist", 3, LISTS_M, quq=1, tail2=1), M("setlist", 3, LISTS_M, quq=1, tail2=1), M("maplist", 4, LISTS_M, quq=2), M("setlist", 4, LISTS_M, quq=2), K("klist", 3, 2, LISTS_K, quq=2), M("maplist", 3, LISTS_M, quq=2), M("setlist", 3, LISTS_M, quq=2), K("klist", 2, 2, LISTS_K, quq=2), K("klist", 3, 2, LISTS_K, quq=1), M("maplist", 3, LISTS_M, deep=3), M("setlist", 3, LISTS_M, deep=3), K("klist", 2, 2, LISTS_K, deep=3), K("klist", 3, 3, LISTS_K, audit=1), M("maplist", 5, LISTS_M, audit=1), M("setlist", 5, LISTS_M, audit=1), M("maplist", 5, LISTS_M, pay="track"), M("setlist", 5, LISTS_M, pay="track"), K("klist", 3, 3, LISTS_K, tbase=252), K("klist", 4, 3, LISTS_K + ",o_twin", tbase=251), F("maplist", LISTS_M, sizes="9,17,33,65"), F("setlist", LISTS_M, sizes="9,17,33,65"), F("klist", "fl,fle,fleby,get,o_pred,o_get,o_export,o_log,o_rb"), M("maplist", 8, LISTS_M), M("setlist", 8, LISTS_M), M("setlist", 6, LISTS_M, pay="heap", hint=0), K("klist", 5, 4, LISTS_K, cap_s=900), K("klist", 4, 5, LISTS_K)],
 }
 
